@@ -49,20 +49,31 @@ Lemma parse_auto strip text c r :
   parse Auto strip text = parse (Forced (if Ascii.eqb c "/"%char then Slash else Dot)) strip text.
 Proof. intros H. unfold parse. rewrite H. reflexivity. Qed.
 
-Theorem parse_render_nosearch_auto sp l :
-  wf sp l = true -> forallb idx_guard l = true -> forallb not_search l = true ->
+(* separator inference picks the notation the text was written in, unless a
+   dot-notation text starts with "/" (the property's own exclusion) *)
+Lemma parse_auto_forced sp strip text :
+  (sp = Dot -> first_not_in ["/"%char] text = true) ->
+  (sp = Slash -> exists r, text = String "/"%char r) ->
+  parse Auto strip text = parse (Forced sp) strip text.
+Proof.
+  intros Hd Hs.
+  destruct (normalize_original text) as [|c r] eqn:En.
+  - unfold parse. rewrite En. reflexivity.
+  - rewrite (parse_auto _ _ _ _ En).
+    assert (Hn : text = String c r).
+    { unfold normalize_original in En. destruct (strip_py text); [discriminate En | exact En]. }
+    destruct sp.
+    + specialize (Hd eq_refl). rewrite Hn in Hd. cbn in Hd. destruct (Ascii.eqb c "/"%char); [discriminate Hd | reflexivity].
+    + destruct (Hs eq_refl) as (r' & Er). rewrite Hn in Er. injection Er as -> _. reflexivity.
+Qed.
+
+Theorem parse_render_auto sp l :
+  wf sp l = true ->
   (sp = Dot -> first_not_in ["/"%char] (render_ref sp l) = true) ->
   parse Auto true (render_ref sp l) = Ok (segs_of l).
 Proof.
-  intros Hwf Hidx Hns Hd.
-  destruct (normalize_original (render_ref sp l)) as [|c r] eqn:En.
-  - rewrite <- (parse_render_nosearch sp l Hwf Hidx Hns). unfold parse. rewrite En. reflexivity.
-  - rewrite (parse_auto _ _ _ _ En). rewrite <- (parse_render_nosearch sp l Hwf Hidx Hns).
-    assert (Hn : render_ref sp l = String c r).
-    { unfold normalize_original in En. destruct (strip_py (render_ref sp l)); [discriminate En | exact En]. }
-    destruct sp.
-    + specialize (Hd eq_refl). rewrite Hn in Hd. cbn in Hd. destruct (Ascii.eqb c "/"%char); [discriminate Hd | reflexivity].
-    + unfold render_ref in Hn. cbn in Hn. injection Hn as <- _. reflexivity.
+  intros Hwf Hd. rewrite (parse_auto_forced sp); [apply parse_render; exact Hwf | exact Hd |].
+  intros ->. eexists. reflexivity.
 Qed.
 
 (* ---- witnesses of the known findings ---- *)
